@@ -264,6 +264,12 @@ fn judge_grid(case: &Case, l: &mut Local) {
                     let lifted = p3 + Vector3::new(0.0, 0.0, 0.01);
                     let r = guarded(|| m2.uv_with_tol(&lifted, 0.1, 0.5, None).and_then(|(uvp, depth)| m2.uv_to_3d(&uvp).map(|b| (b, depth))));
                     l.bucket(if mirrored { "UV round trip through a mirrored map" } else { "UV round trip" });
+                    // the two tolerances are a distance and an angle, in that order: a point farther than the
+                    // distance is refused whatever the angle allows, one within it is accepted
+                    let high = p3 + Vector3::new(0.0, 0.0, 0.3);
+                    let refused = guarded(|| m2.uv_with_tol(&high, 0.1, 1.0, None));
+                    let taken = guarded(|| m2.uv_with_tol(&high, 2.0, 0.25, None));
+                    l.check("UV lookup honours the distance and the angle tolerance as given", "", matches!(refused, Ok(None)) && matches!(taken, Ok(Some(_))), mk, || format!("p {:?} + 0.3 z: (0.1, 1.0) -> {:?}, (2.0, 0.25) -> {:?}", p3, refused, taken));
                     // the same query given in another frame together with the transform that brings it back
                     for tf in [&poses[1], &poses[2]] {
                         let away = tf.inverse_transform_point(&lifted);
